@@ -1,0 +1,358 @@
+//! Virtual TCP: `std::net::{TcpListener, TcpStream}` look-alikes on top of the runtime.
+//!
+//! An address registry maps a bound address to an accept queue; a connection is a pair of bounded
+//! byte pipes. `write` accepts between 1 and `free` bytes, `read` returns between 1 and
+//! `available` bytes (the maximum unless short I/O is enabled, in which case the runtime picks);
+//! closing a side wakes the peer; reading a closed and drained pipe returns 0; connecting to an
+//! address nobody listens on waits for the bind.
+use std::cell::RefCell;
+use std::collections::{HashMap, VecDeque};
+use std::io::{self, Read, Write};
+use std::net::SocketAddr;
+pub use std::net::{Shutdown, ToSocketAddrs};
+use std::sync::{Arc, Mutex};
+use std::time::Duration;
+
+use super::{rt, try_rt, wake, ChoiceKind, Op, Param, TaskId};
+
+struct Pipe {
+    id: usize,
+    buf: VecDeque<u8>,
+    cap: usize,
+    /// the writer closed its end
+    closed_w: bool,
+    /// the reader closed its end
+    closed_r: bool,
+    waiters: Vec<TaskId>,
+    tokens: Vec<u64>,
+}
+
+type SharedPipe = Arc<Mutex<Pipe>>;
+
+fn new_pipe() -> SharedPipe {
+    let r = rt();
+    let cap = r.param(Param::PipeCapacity);
+    Arc::new(Mutex::new(Pipe {
+        id: r.new_object(),
+        buf: VecDeque::new(),
+        cap: if cap == 0 { 65536 } else { cap },
+        closed_w: false,
+        closed_r: false,
+        waiters: vec![],
+        tokens: vec![],
+    }))
+}
+
+pub struct TcpStream {
+    rx: SharedPipe,
+    tx: SharedPipe,
+    local: SocketAddr,
+    peer: SocketAddr,
+}
+
+impl std::fmt::Debug for TcpStream {
+    fn fmt(&self, f: &mut std::fmt::Formatter<'_>) -> std::fmt::Result {
+        write!(f, "TcpStream({} -> {})", self.local, self.peer)
+    }
+}
+
+struct ListenerState {
+    queue: VecDeque<TcpStream>,
+    acceptors: Vec<TaskId>,
+}
+
+#[derive(Default)]
+struct Registry {
+    listeners: HashMap<SocketAddr, ListenerState>,
+    connectors: Vec<TaskId>,
+    next_port: u16,
+}
+
+thread_local! {
+    static REG: RefCell<Registry> = RefCell::new(Registry::default());
+}
+
+pub(crate) fn reset() {
+    REG.with(|r| *r.borrow_mut() = Registry::default());
+}
+
+fn lock(p: &SharedPipe) -> std::sync::MutexGuard<'_, Pipe> {
+    match p.lock() {
+        Ok(g) => g,
+        Err(e) => e.into_inner(),
+    }
+}
+
+impl TcpStream {
+    pub fn connect_timeout(addr: &SocketAddr, _timeout: Duration) -> io::Result<TcpStream> {
+        rt().op(Op::Net(0));
+        loop {
+            let done = REG.with(|r| {
+                let mut r = r.borrow_mut();
+                r.next_port = r.next_port.wrapping_add(1);
+                let port = 40000 + (r.next_port % 20000);
+                match r.listeners.get_mut(addr) {
+                    Some(l) => {
+                        let local = SocketAddr::new(addr.ip(), port);
+                        let a = new_pipe();
+                        let b = new_pipe();
+                        let client = TcpStream {
+                            rx: a.clone(),
+                            tx: b.clone(),
+                            local,
+                            peer: *addr,
+                        };
+                        let server = TcpStream {
+                            rx: b,
+                            tx: a,
+                            local: *addr,
+                            peer: local,
+                        };
+                        l.queue.push_back(server);
+                        let w = std::mem::take(&mut l.acceptors);
+                        Some((client, w))
+                    }
+                    None => {
+                        let me = rt().me();
+                        if !r.connectors.contains(&me) {
+                            r.connectors.push(me);
+                        }
+                        None
+                    }
+                }
+            });
+            match done {
+                Some((client, w)) => {
+                    wake(w);
+                    return Ok(client);
+                }
+                None => {
+                    rt().block(None);
+                }
+            }
+        }
+    }
+    pub fn connect<A: ToSocketAddrs>(addr: A) -> io::Result<TcpStream> {
+        let a = addr.to_socket_addrs()?.next().unwrap();
+        Self::connect_timeout(&a, Duration::from_secs(1))
+    }
+    pub fn peer_addr(&self) -> io::Result<SocketAddr> {
+        Ok(self.peer)
+    }
+    pub fn local_addr(&self) -> io::Result<SocketAddr> {
+        Ok(self.local)
+    }
+    pub fn shutdown(&self, how: Shutdown) -> io::Result<()> {
+        let mut w = vec![];
+        if matches!(how, Shutdown::Write | Shutdown::Both) {
+            let mut p = lock(&self.tx);
+            p.closed_w = true;
+            w.append(&mut p.waiters);
+        }
+        if matches!(how, Shutdown::Read | Shutdown::Both) {
+            let mut p = lock(&self.rx);
+            p.closed_r = true;
+            w.append(&mut p.waiters);
+        }
+        wake(w);
+        Ok(())
+    }
+    pub fn set_nodelay(&self, _: bool) -> io::Result<()> {
+        Ok(())
+    }
+}
+
+impl Drop for TcpStream {
+    fn drop(&mut self) {
+        let _ = self.shutdown(Shutdown::Both);
+    }
+}
+
+fn pick(kind: ChoiceKind, max: usize) -> usize {
+    let r = rt();
+    if max <= 1 || r.param(Param::ShortIo) == 0 {
+        return max;
+    }
+    let mut opts = vec![max, 1];
+    if max > 2 {
+        opts.push(max - 1);
+    }
+    opts[r.choose(kind, opts.len())]
+}
+
+impl Read for TcpStream {
+    fn read(&mut self, buf: &mut [u8]) -> io::Result<usize> {
+        if buf.is_empty() {
+            return Ok(0);
+        }
+        let id = lock(&self.rx).id;
+        rt().op(Op::NetRead(id));
+        loop {
+            let mut p = lock(&self.rx);
+            if p.closed_r {
+                return Ok(0);
+            }
+            if !p.buf.is_empty() {
+                let max = buf.len().min(p.buf.len());
+                drop(p);
+                let k = pick(ChoiceKind::ShortRead, max);
+                let mut p = lock(&self.rx);
+                for b in buf.iter_mut().take(k) {
+                    *b = p.buf.pop_front().unwrap();
+                }
+                for t in std::mem::take(&mut p.tokens) {
+                    super::hb_acquire(t);
+                }
+                let w = std::mem::take(&mut p.waiters);
+                drop(p);
+                wake(w);
+                return Ok(k);
+            }
+            if p.closed_w {
+                return Ok(0);
+            }
+            let me = rt().me();
+            if !p.waiters.contains(&me) {
+                p.waiters.push(me);
+            }
+            drop(p);
+            rt().block(None);
+        }
+    }
+}
+
+impl Write for TcpStream {
+    fn write(&mut self, buf: &[u8]) -> io::Result<usize> {
+        if buf.is_empty() {
+            return Ok(0);
+        }
+        let id = lock(&self.tx).id;
+        rt().op(Op::NetWrite(id));
+        loop {
+            let mut p = lock(&self.tx);
+            if p.closed_r || p.closed_w {
+                return Err(io::Error::new(io::ErrorKind::BrokenPipe, "peer closed"));
+            }
+            let free = p.cap.saturating_sub(p.buf.len());
+            if free > 0 {
+                let max = buf.len().min(free);
+                drop(p);
+                let k = pick(ChoiceKind::ShortWrite, max);
+                let mut p = lock(&self.tx);
+                p.buf.extend(&buf[..k]);
+                let t = super::hb_release();
+                p.tokens.push(t);
+                let w = std::mem::take(&mut p.waiters);
+                drop(p);
+                wake(w);
+                return Ok(k);
+            }
+            let me = rt().me();
+            if !p.waiters.contains(&me) {
+                p.waiters.push(me);
+            }
+            drop(p);
+            rt().block(None);
+        }
+    }
+    fn flush(&mut self) -> io::Result<()> {
+        Ok(())
+    }
+}
+
+pub struct TcpListener {
+    addr: SocketAddr,
+}
+
+impl std::fmt::Debug for TcpListener {
+    fn fmt(&self, f: &mut std::fmt::Formatter<'_>) -> std::fmt::Result {
+        write!(f, "TcpListener({})", self.addr)
+    }
+}
+
+impl TcpListener {
+    pub fn bind<A: ToSocketAddrs>(addr: A) -> io::Result<TcpListener> {
+        rt().op(Op::Net(0));
+        let addr = addr
+            .to_socket_addrs()?
+            .next()
+            .ok_or_else(|| io::Error::new(io::ErrorKind::InvalidInput, "no address"))?;
+        let w = REG.with(|r| {
+            let mut r = r.borrow_mut();
+            if r.listeners.contains_key(&addr) {
+                return Err(io::Error::new(
+                    io::ErrorKind::AddrInUse,
+                    format!("address {addr} already bound"),
+                ));
+            }
+            r.listeners.insert(
+                addr,
+                ListenerState {
+                    queue: Default::default(),
+                    acceptors: vec![],
+                },
+            );
+            Ok(std::mem::take(&mut r.connectors))
+        })?;
+        if let Some(r) = try_rt() {
+            r.observe(super::observe::Event::Bound(addr.to_string()));
+        }
+        wake(w);
+        Ok(TcpListener { addr })
+    }
+    pub fn local_addr(&self) -> io::Result<SocketAddr> {
+        Ok(self.addr)
+    }
+    pub fn accept(&self) -> io::Result<(TcpStream, SocketAddr)> {
+        rt().op(Op::Net(1));
+        loop {
+            let got = REG.with(|r| {
+                let mut r = r.borrow_mut();
+                let l = r.listeners.get_mut(&self.addr).expect("listener vanished");
+                match l.queue.pop_front() {
+                    Some(s) => Some(s),
+                    None => {
+                        let me = rt().me();
+                        if !l.acceptors.contains(&me) {
+                            l.acceptors.push(me);
+                        }
+                        None
+                    }
+                }
+            });
+            match got {
+                Some(s) => {
+                    let peer = s.peer;
+                    return Ok((s, peer));
+                }
+                None => {
+                    rt().block(None);
+                }
+            }
+        }
+    }
+    pub fn incoming(&self) -> Incoming<'_> {
+        Incoming { l: self }
+    }
+}
+
+impl Drop for TcpListener {
+    fn drop(&mut self) {
+        let _ = REG.try_with(|r| {
+            if let Ok(mut r) = r.try_borrow_mut() {
+                r.listeners.remove(&self.addr);
+            }
+        });
+    }
+}
+
+pub struct Incoming<'a> {
+    l: &'a TcpListener,
+}
+
+impl Iterator for Incoming<'_> {
+    type Item = io::Result<TcpStream>;
+    fn next(&mut self) -> Option<Self::Item> {
+        Some(self.l.accept().map(|(s, _)| s))
+    }
+}
